@@ -47,17 +47,18 @@ type arrival struct {
 }
 
 type socksRT struct {
-	w        *World
-	ss       *spec.SocksSpec
-	srvHost  *vhost
-	cliHost  *vhost
-	mux      *protocol.Mux
-	s5       *socks5.Server
-	cmux     []*protocol.Mux
-	mu       sync.Mutex
-	arrivals []arrival
-	proxied  []string // requests seen by the egress proxy (dst strings)
-	results  []*reqResult
+	w         *World
+	ss        *spec.SocksSpec
+	srvHost   *vhost
+	cliHost   *vhost
+	mux       *protocol.Mux
+	s5        *socks5.Server
+	cmux      []*protocol.Mux
+	mu        sync.Mutex
+	arrivals  []arrival
+	proxied   []string // requests seen by the egress proxy (dst strings)
+	egressSeq int
+	results   []*reqResult
 }
 
 type reqResult struct {
@@ -211,6 +212,18 @@ func (rt *socksRT) startDestinations() error {
 
 func (rt *socksRT) egressProxyServe(c net.Conn) {
 	defer c.Close()
+	var beh spec.EgressBehaviour
+	if eb := rt.ss.Egress; len(eb) > 0 {
+		rt.mu.Lock()
+		beh = eb[rt.egressSeq%len(eb)]
+		rt.egressSeq++
+		rt.mu.Unlock()
+	}
+	abort := func() {
+		if sc, ok := c.(*simnet.Conn); ok {
+			sc.Reset()
+		}
+	}
 	c.SetDeadline(time.Now().Add(30 * time.Second))
 	hdr := make([]byte, 2)
 	if _, err := io.ReadFull(c, hdr); err != nil {
@@ -246,7 +259,77 @@ func (rt *socksRT) egressProxyServe(c net.Conn) {
 	rt.proxied = append(rt.proxied, dst)
 	rt.arrivals = append(rt.arrivals, arrival{dest: proxyHost, from: c.RemoteAddr().String(), kind: "via-egress-proxy", payload: []byte(dst), atUs: rt.w.nowUs()})
 	rt.mu.Unlock()
-	c.Write([]byte{5, 0, 0, 1, 0, 0, 0, 0, 0, 0})
+	if beh.Mode != "" {
+		rt.w.fault("egress-proxy-" + beh.Mode)
+	}
+	switch beh.Mode {
+	case "rst-before-reply":
+		abort()
+		return
+	case "garbage-reply":
+		c.Write([]byte{0x47, 0x45, 0x54, 0x20, 0x2f, 0x20, 0x48, 0x54, 0x54, 0x50, 0xff, 0xff, 0x00})
+		return
+	case "short-reply":
+		c.Write([]byte{5, 0, 0, 1, 10})
+		return
+	case "bad-atyp-reply":
+		c.Write([]byte{5, 0, 0, 9, 1, 2, 3, 4, 5, 6})
+		return
+	case "error-reply":
+		c.Write([]byte{5, 5, 0, 1, 0, 0, 0, 0, 0, 0})
+		return
+	case "huge-domain-reply":
+		b := []byte{5, 0, 0, 3, 255}
+		for i := 0; i < 255; i++ {
+			b = append(b, 'a')
+		}
+		c.Write(append(b, 0, 80))
+	case "silent":
+		c.SetDeadline(time.Time{})
+		time.Sleep(40 * time.Second)
+		return
+	}
+	endLater := func() {
+		switch beh.Mode {
+		case "rst-after-reply":
+			time.AfterFunc(time.Duration(beh.ArgUs)*time.Microsecond, abort)
+		case "fin-after-reply":
+			time.AfterFunc(time.Duration(beh.ArgUs)*time.Microsecond, func() { c.Close() })
+		}
+	}
+	if req[1] == 3 {
+		// UDP ASSOCIATE: bind a relay socket and echo every datagram back to its sender
+		pc, err := rt.w.Net.Node(proxyHost).ListenPacket(context.Background(), "udp", net.JoinHostPort(proxyHost, "0"))
+		if err != nil {
+			c.Write([]byte{5, 1, 0, 1, 0, 0, 0, 0, 0, 0})
+			return
+		}
+		defer pc.Close()
+		port := pc.LocalAddr().(*net.UDPAddr).Port
+		ip := net.ParseIP(proxyHost).To4()
+		if beh.Mode != "huge-domain-reply" {
+			c.Write([]byte{5, 0, 0, 1, ip[0], ip[1], ip[2], ip[3], byte(port >> 8), byte(port)})
+		}
+		endLater()
+		go func() {
+			buf := make([]byte, 65536)
+			for {
+				n, from, err := pc.ReadFrom(buf)
+				if err != nil {
+					return
+				}
+				rt.w.probe("egress-proxy-relayed-datagram")
+				pc.WriteTo(buf[:n], from)
+			}
+		}()
+		c.SetDeadline(time.Time{})
+		io.Copy(io.Discard, c) // the association lives as long as the control connection
+		return
+	}
+	if beh.Mode != "huge-domain-reply" {
+		c.Write([]byte{5, 0, 0, 1, 0, 0, 0, 0, 0, 0})
+	}
+	endLater()
 	c.SetDeadline(time.Time{})
 	io.Copy(c, c)
 }
@@ -515,6 +598,22 @@ func (rt *socksRT) runRequest(r *reqResult) {
 				var err error
 				if ip := net.ParseIP(d.Host); req.Wrapper && ip != nil && len(pkt) <= 65535 {
 					_, err = apicommon.NewUDPAssociateWrapper(tun).WriteTo(payload, &net.UDPAddr{IP: ip, Port: d.Port})
+				} else if len(d.SplitAt) > 0 && len(pkt) <= 65535 {
+					frame := make([]byte, 0, 4+len(pkt))
+					frame = append(frame, 0, byte(len(pkt)>>8), byte(len(pkt)))
+					frame = append(append(frame, pkt...), 0xff)
+					prev := 0
+					for _, cut := range append(append([]int{}, d.SplitAt...), len(frame)) {
+						if cut <= prev || cut > len(frame) {
+							continue
+						}
+						if _, err = conn.Write(frame[prev:cut]); err != nil {
+							break
+						}
+						prev = cut
+						w.probe("tunnel-frame-written-in-pieces")
+						time.Sleep(time.Millisecond)
+					}
 				} else {
 					_, err = tun.Write(pkt)
 				}
